@@ -147,9 +147,50 @@ class Registry:
         return ax
 
     def uninterp_fn(self, name):
+        """argument kinds of an uninterpreted / opaque spec function: the scalar kinds, 'rec' (a definition object),
+        'packet' (the item mapping: expands to its has- and val-arrays), 'cur' (an optional current raw value: expands
+        to a tag - 0 none, 1 int, 2 float - and a real)"""
         sig = self.uninterp[name]
-        sorts = [TY.smt_sort(s) for s in sig]
+        sorts = []
+        for s_ in sig[:-1]:
+            if s_ == 'rec':
+                sorts.append(TY.Obj)
+            elif s_ == 'packet':
+                sorts += [z3.ArraySort(z3.StringSort(), z3.BoolSort()), z3.ArraySort(z3.StringSort(), TY.PVal)]
+            elif s_ == 'cur':
+                sorts += [z3.IntSort(), z3.RealSort()]
+            else:
+                sorts.append(TY.smt_sort(s_))
+        sorts.append(TY.smt_sort(sig[-1]))
         return z3.Function('spec_' + name, *sorts), sig
+
+    def uninterp_args(self, I, sig, args):
+        from .objects import odict_of
+        ts = []
+        for a, s_ in zip(args, sig[:-1]):
+            if s_ == 'rec':
+                ts.append(a.t)
+            elif s_ == 'packet':
+                od = odict_of(I, a)
+                ts += [od.t['has'], od.t['val']]
+            elif s_ == 'cur':
+                if a.kind == 'none':
+                    ts += [z3.IntVal(0), z3.RealVal(0)]
+                elif a.kind in ('int', 'bool'):
+                    ts += [z3.IntVal(1), z3.ToReal(as_int_term(a))]
+                elif a.kind == 'real':
+                    ts += [z3.IntVal(2), a.t]
+                else:
+                    raise OutOfSubset(f"current value of kind {a.kind}")
+            elif s_ == 'bytes':
+                ts.append(I.as_bytes(a))
+            elif s_ == 'real':
+                ts.append(as_real_term(a))
+            elif s_ == 'int':
+                ts.append(as_int_term(a))
+            else:
+                ts.append(a.t)
+        return ts
 
     # ---- frames / globals ------------------------------------------------------------------------------------
     def global_frame(self, I, module):
